@@ -108,6 +108,7 @@ func checkC18(c *Check) {
 		w.RunEntry(f, f.Name())
 		c.Fn(funcDisplayName(f))
 	}
+	mapContract(c)
 	// 5. map discipline
 	nraw := 0
 	for _, e := range w.Events {
